@@ -21,12 +21,12 @@ INT = r"^(const )?(unsigned |signed )?(size_t|int|long|unsigned int|unsigned lon
 ROLES = {
     "frg::slab_pool": [
         ("_plcy", _t(r"&$")),
-        ("_tree_mutex", lambda t, f: "Mutex" in t and "[" not in t and not t.endswith("&") and "bucket" not in t),
+        ("_tree_mutex", _t(r"^[\w:]*Mutex$")),
         ("_usedPages", lambda t, f: re.match(INT, t) is not None and not t.startswith("const ")),
         ("_bkts", _t(r"bucket\[\d+\]$")),
     ],
     "frg::slab_pool::bucket": [
-        ("bucket_mutex", lambda t, f: "Mutex" in t),
+        ("bucket_mutex", _t(r"^[\w:]*Mutex$")),
         ("head_slb", _t(r"slab_frame \*$")),
         ("partial_tree", _t(r"tree")),
     ],
@@ -49,28 +49,80 @@ ROLES = {
     "frg::slab_allocator": [
         ("pool_", _t(r"\*$")),
     ],
-    "frg::pairing_heap": [
-        ("_root", _t(r"\*$")),
-    ],
-    "frg::pairing_heap_hook": [
-        ("child", None), ("backlink", None), ("sibling", None),      # three same-typed pointers: cannot be told apart by type
-    ],
-    "frg::unique_lock": [
-        ("_mutex", _t(r"\*$")), ("_is_locked", _t(r"^bool$")),
-    ],
-    "frg::shared_lock": [
-        ("_mutex", _t(r"\*$")), ("_is_locked", _t(r"^bool$")),
-    ],
-    "frg::unique_ptr": [
-        ("_ptr", _t(r"\*$")), ("_allocator", lambda t, f: not t.endswith("*")),
-    ],
+    "frg::_pairing::pairing_heap": [("_root", _t(r"\*$"))],
+    "frg::_redblack::tree_crtp_struct": [("_root", _t(r"\*$"))],
+    "frg::unique_lock": [("_mutex", _t(r"\*$")), ("_is_locked", _t(r"^bool$"))],
+    "frg::shared_lock": [("_mutex", _t(r"\*$")), ("_is_locked", _t(r"^bool$"))],
+    "frg::lock_guard": [("_mutex", _t(r"\*$")), ("_locked", _t(r"^bool$"))],
+    "frg::simple_spinlock": [("lock_", _t(r"."))],
+    "frg::qs_node": [("on_grace_period", _t(r"\(\*\)")), ("_target_qs_counter", _t(INT)), ("_queue_node", _t(r"hook"))],
+    "frg::qs_agent": [("_dom", _t(r"\*$")), ("_acked_qs_counter", _t(INT)), ("_qs_deferred", _t(r"^bool$")), ("_pending", _t(r"list"))],
+    "frg::optional": [("_stor", _t(r"storage")), ("_non_null", _t(r"^bool$"))],
+    "frg::manual_box": [("_storage", _t(r"storage")), ("_initialized", _t(r"^bool$"))],
+    "frg::eternal": [("_storage", _t(r"storage"))],
+    "frg::expected": [("stor_", _t(r"\[\d+\]$")), ("e_", lambda t, f: "[" not in t)],
+    "frg::variant": [("tag_", _t(INT)), ("storage_", lambda t, f: re.match(INT, t) is None)],
+    "frg::unique_ptr": [("_ptr", _t(r"\*$")), ("_allocator", lambda t, f: not t.endswith("*"))],
+    "frg::unique_memory": [("pointer_", _t(r"^void \*$")), ("size_", _t(INT)), ("allocator_", lambda t, f: t.endswith("*") and not t.startswith("void"))],
+    "frg::mt19937": [("_st", _t(r"\[\d+\]$")), ("_ctr", _t(INT))],
+    "frg::bitset": [("buffer", _t(r"\[\d+\]$"))],
+    "frg::bitset::reference": [("index", _t(INT)), ("s", _t(r"&$"))],
+    "frg::array": [("_stor", _t(r"\[\d+\]$"))],
+    "frg::vector": [("_allocator", lambda t, f: not t.endswith("*") and re.match(INT, t) is None), ("_elements", _t(r"\*$")),
+                    ("_size", ("ret", "size")), ("_capacity", _t(INT))],
+    "frg::small_vector": [("_allocator", lambda t, f: not t.endswith("*") and re.match(INT, t) is None and "array" not in t),
+                          ("_array", _t(r"array<")), ("_elements", _t(r"\*$")), ("_size", ("ret", "size")), ("_capacity", _t(INT))],
+    "frg::dyn_array": [("allocator_", lambda t, f: not t.endswith("*") and re.match(INT, t) is None), ("elements_", _t(r"\*$")), ("size_", _t(INT))],
+    "frg::list": [("allocator_", lambda t, f: "list" not in t), ("items_", _t(r"list"))],
+    "frg::hash_map": [("_hasher", lambda t, f: "hash" in t.lower() and not t.endswith("*")), ("_allocator", lambda t, f: "Alloc" in t and not t.endswith("*")),
+                      ("_table", _t(r"\*$")), ("_size", ("ret", "size")), ("_capacity", _t(INT))],
+    "frg::hash_map::chain": [("entry", lambda t, f: not t.endswith("*")), ("next", _t(r"\*$"))],
+    "frg::basic_string_view": [("_pointer", _t(r"\*$")), ("_length", _t(INT))],
+    "frg::basic_string": [("_allocator", lambda t, f: not t.endswith("*") and re.match(INT, t) is None), ("_buffer", _t(r"\*$")), ("_length", _t(INT))],
+    "frg::rcu_radixtree": [("_allocator", lambda t, f: "atomic" not in t), ("_root", _t(r"atomic"))],
+    "frg::rcu_radixtree::link_node": [("links", _t(r"."))],
+    "frg::rcu_radixtree::entry_node": [("mask", _t(r"atomic")), ("entries", lambda t, f: "atomic" not in t)],
+    "frg::rcu_radixtree::node": [("prefix", _t(r"^uint64_t$|^unsigned long$")), ("depth", _t(r"^unsigned int$|^int$")), ("parent", _t(r"\*$"))],
+    "frg::rcu_radixtree::iterator": [("_n", _t(r"\*$")), ("_idx", _t(INT))],
 }
 
 
-def _mapping(rec):
+def _returned_field(d, rec, method):
+    """Name of the data member that `rec`'s parameterless method `method` returns (through casts), else None."""
+    for fn in d.get("functions", []):
+        if fn.get("clsqn") != rec["qn"] or fn.get("name") != method or fn.get("params"):
+            continue
+        nodes = fn.get("nodes", [])
+        rets = [n for n in nodes if n.get("k") == "ReturnStmt" and "val" in n]
+        if len(rets) != 1:
+            continue
+        x = nodes[rets[0]["val"]]
+        hops = 0
+        while x.get("k") in ("ImplicitCastExpr", "ParenExpr") and x.get("c") and hops < 6:
+            x = nodes[x["c"][0]]
+            hops += 1
+        if x.get("k") == "MemberExpr" and x.get("mk") == "Field":
+            return x.get("m")
+    return None
+
+
+def _mapping(rec, d=None):
     spec = ROLES.get(rec["uq"])
     if not spec or any(p is None for _, p in spec):
         return None
+    # accessor selectors first: ("ret", method) = the member that method returns
+    resolved = []
+    for canon_name, pred in spec:
+        if isinstance(pred, tuple) and pred[0] == "ret":
+            nm = _returned_field(d, rec, pred[1]) if d is not None else None
+            if nm is None:
+                return None
+            resolved.append((canon_name, (lambda t, f, nm=nm: f["n"] == nm)))
+        else:
+            resolved.append((canon_name, pred))
+    # exact-name selectors bind before the type selectors that would also match them
+    spec = [x for x in resolved if x[0] in [c for c, p in ROLES[rec["uq"]] if isinstance(p, tuple)]] + \
+           [x for x in resolved if x[0] not in [c for c, p in ROLES[rec["uq"]] if isinstance(p, tuple)]]
     fields = [f for f in rec["fields"]]
     # with FRG_SLAB_TRACK_REGIONS the pool has one more member (the frame tree): optional extra roles
     extra = []
@@ -96,7 +148,7 @@ def normalise(d):
     maps = {}
     for rec in d.get("records", []):
         if rec["uq"] in ROLES and rec["uq"] not in maps:
-            m = _mapping(rec)
+            m = _mapping(rec, d)
             if m and any(a != c for a, c in m.items()):
                 maps[rec["uq"]] = m
     if not maps:
